@@ -1211,6 +1211,27 @@ func (x *Exec) evalCall(c *ECall, env *SpecEnv) (Val, error) {
 		}
 		t, err := vc.locRef(l)
 		return Val{T: t}, err
+	case "deref":
+		// deref(T, p): the value of the heap cell of type T that pointer p (a reference) points to
+		if err := argN(2); err != nil {
+			return Val{}, err
+		}
+		ty, err := x.typeExpr(c.Args[0], env)
+		if err != nil {
+			return Val{}, err
+		}
+		pv, err := x.evalSpec(c.Args[1], env)
+		if err != nil {
+			return Val{}, err
+		}
+		if pv.Loc != nil {
+			return vc.loadLoc(env.st, pv.Loc)
+		}
+		if pv.T.Sort != SInt {
+			return Val{}, fmt.Errorf("deref() needs a pointer")
+		}
+		key, hs := vc.cellKey(ty)
+		return Val{T: Select(vc.heapGet(env.st, key, hs), pv.T), Typ: ty}, nil
 	case "as":
 		// as(T, x): the dynamic value of interface x viewed as pointer type T (meaningful when typeof(x) == typeid(T))
 		if err := argN(2); err != nil {
@@ -1492,6 +1513,9 @@ func (x *Exec) typeExpr(e Expr, env *SpecEnv) (types.Type, error) {
 			t = &EIdent{t.Name[4:]}
 		}
 		if b, ok := basicByName[t.Name]; ok {
+			if ptr {
+				return types.NewPointer(b), nil
+			}
 			return b, nil
 		}
 		if env.pkg != nil {
